@@ -577,5 +577,8 @@ fn _close_upvalues<T>(vm: &mut Vm<T>, top: *const Value) -> ExecutionResult {
 
 pub fn close_upvalues<T>(vm: &mut Vm<T>) -> ExecutionResult {
     let top = vm.runtime_data.value_stack.top_location();
-    _close_upvalues(vm, top)
+    _close_upvalues(vm, top)?;
+    // the captured local goes out of scope like any other local
+    vm.stack_pop();
+    Ok(())
 }
